@@ -195,6 +195,19 @@ func runC18(c *ctx) {
 		oracle("$string(x)", in, "ok "+valueSexp(jsonNumberText(x)), "string")
 		law("$number($string(x)) = x", in, "law/number-string")
 		c.diffEval("$number($string(x))", in, "number")
+		// the same number written as a literal in the expression text (plain decimal with all its digits, and shortest
+		// form): the literal must denote x itself, so the statements about x hold for it too
+		if !math.IsInf(x, 0) && !math.IsNaN(x) && math.Abs(x) < 1e21 && (x == 0 || math.Abs(x) > 1e-7) && !(x == 0 && math.Signbit(x)) {
+			for _, lit := range []string{strconv.FormatFloat(math.Abs(x), 'f', -1, 64), strconv.FormatFloat(math.Abs(x), 'g', -1, 64), strconv.FormatFloat(math.Abs(x), 'f', 20, 64)} {
+				if strings.ContainsAny(lit, "+") {
+					lit = strings.Replace(lit, "e+", "e", 1)
+				}
+				ax := map[string]interface{}{"x": math.Abs(x)}
+				law("("+lit+") = x", ax, "law/literal-denotes")
+				oracle("$string("+lit+")", ax, "ok "+valueSexp(jsonNumberText(math.Abs(x))), "string-of-literal")
+				c.diffEval("$round("+lit+", 2)", ax, "round-of-literal")
+			}
+		}
 		// floor / ceil / abs / sqrt
 		c.diffEval("$floor(x)", in, "floor")
 		c.diffEval("$ceil(x)", in, "ceil")
